@@ -1,0 +1,14 @@
+//go:build !verif
+
+package core
+
+// See verif_hooks.go.  Without the "verif" build tag the hooks are no-ops.
+func verifEvent(ev string, kv ...string) {}
+
+func verifMd(md *Metadata, ev string, name MetadataFileName) {}
+
+func verifSem(s *ResourceSemaphore, ev string, n int64) {}
+
+func verifSlot(s *MaxJobsSemaphore, ev string, md *Metadata) {}
+
+func verifProc(md *Metadata, ev string, cmd interface{}) {}
